@@ -17,6 +17,8 @@ LI = 'concepts/algorithms/lindig.py'
 CO = 'concepts/algorithms/common.py'
 FC = 'concepts/algorithms/fcbo.py'
 VZ = 'concepts/visualize.py'
+AI = 'concepts/algorithms/__init__.py'
+CM = 'concepts/_common.py'
 
 MUTANTS = [
     # (file, old, new, units, 'breaks'|'equivalent')
@@ -74,6 +76,27 @@ MUTANTS = [
     (VZ, 'sorted(concept.lower_neighbors, key=sortkey)', 'sorted(concept.lower_neighbors, key=lambda c: -c.index)', ['visualize.lattice'], 'equivalent'),
     (CX, "and self.bools == other.bools)", "and self.bools == self.bools)", ['contexts.__eq__'], 'breaks'),
     (CX, "return not self == other", "return self == other", ['contexts.__ne__'], 'breaks'),
+    (FC, 'j_extent = extent & context._extents[j]', 'j_extent = extent | context._extents[j]', ['fcbo.fast_generate_from'], 'breaks'),
+    (FC, 'stack = [(Objects.supremum.doubleprime(), 0, [Properties.infimum] * n_properties)]',
+         'stack = [((Objects.supremum, Properties.infimum), 0, [Properties.infimum] * n_properties)]', ['fcbo.fast_generate_from'], 'breaks'),
+    (FC, 'concept = (Objects.fromint(j_extent), Properties.fromint(j_intent))\n                    stack.append((concept, j + 1, next_property_sets))',
+         'concept = (Objects.fromint(j_extent), Properties.fromint(j_lower))\n                    stack.append((concept, j + 1, next_property_sets))', ['fcbo.fast_generate_from'], 'breaks'),
+    (FC, 'j_extent = extent & context._extents[j]', 'j_extent = extent & context._extents[j + 1]', ['fcbo.fast_generate_from'], 'breaks'),
+    # still sound (a row intent is closed): breaks only the unproved completeness/uniqueness clauses
+    (FC, 'j_intent = intent & context._intents[j]', 'j_intent = context._intents[j]', ['fcbo.fcbo_dual'], 'equivalent'),
+    (FC, 'j_extent = prime(j_intent)\n', 'j_extent = prime(intent)\n', ['fcbo.fcbo_dual'], 'breaks'),
+    (FC, 'if x & intent == x:', 'if True:', ['fcbo.fast_generate_from'], 'equivalent'),
+    (FC, 'stack.append((concept, j + 1, next_property_sets))', 'stack.append((concept, j + 2, next_property_sets))', ['fcbo.fast_generate_from'], 'breaks'),
+    (CX, "or {len(b) for b in bools} != {len(properties)}):",
+         "or sum(map(len, bools)) != len(objects) * len(properties)):", ['contexts.__init__'], 'breaks'),
+    (CX, "            if len(set(items)) != len(items):", "            if len(set(items)) > len(items):", ['contexts.__init__'], 'breaks'),
+    (CX, "        if not set(objects).isdisjoint(properties):", "        if set(objects).isdisjoint(properties):", ['contexts.__init__'], 'breaks'),
+    (CX, "                                                         properties, objects, bools)",
+         "                                                         objects, properties, bools)", ['contexts.__init__'], 'breaks'),
+    (CX, "        self._Objects = self._extents.BitSet", "        self._Objects = self._intents.BitSet", ['contexts.__init__'], 'breaks'),
+    (CX, "            if not items:\n                raise ValueError(f'empty {name}')", "            if not items:\n                raise KeyError(f'empty {name}')", ['contexts.__init__'], 'breaks'),
+    (AI, 'return map(Concept._make, iterconcepts)', 'return iterconcepts', ['algorithms.iterconcepts'], 'breaks'),
+    (CM, 'return cls(map(Concept._make, iterconcepts))', 'return cls(iterconcepts)', ['common.frompairs'], 'breaks'),
 ]
 
 
@@ -90,6 +113,8 @@ def run(only_units=None, verbose=True):
             src = f.read()
         if src.count(old) < 1:
             bad.append(('mutant does not apply (source changed)', relpath, old))
+            if verbose:
+                print('DOES NOT APPLY', relpath, repr(old[:60]))
             continue
         n += 1
         ov = {relpath: src.replace(old, new, 1)}
